@@ -317,7 +317,7 @@ fn cmd_run(args: &[String]) -> i32 {
             Tier::Thorough => 900,
         },
     ));
-    let known_all = load_known(&format!("{VERIF_DIR}/KNOWN_FINDINGS.txt"));
+    let known_all = load_known(&std::env::var("VERIF_KNOWN_FILE").unwrap_or(format!("{VERIF_DIR}/KNOWN_FINDINGS.txt")));
     let known: Vec<KnownFinding> = known_all
         .into_iter()
         .filter(|k| k.property == spec.id)
